@@ -83,6 +83,9 @@ def variants(base, lay, thorough):
         v("exact", mid, 0, nw=1, rd=[1, 2])                                     # configured size = offset of a file ( < versus <= )
         v("mid", mid + 150, mid, nw=1, nb=1, pcs=2 * base["cs"], rd=[], ro=1)  # ends inside that file; threshold just below
         v("big", size + 1000, size + 500, nw=2, rd=[nf])                        # beyond the blob: capped, and the cap is below the threshold
+    if not thorough:
+        keep = {"lm.w", "lm.async", "lmdot.bg", "nolm.w", "nolm.bg", "none.exact", "none.big", "grp.bg", "lmdot.w"}
+        V = [x for x in V if x["id"] in keep]
     return V
 
 
@@ -108,7 +111,7 @@ def scen_module(scens):
     return re.sub(r"(?m)^GenScen == .*$", "GenScen == {\n    " + recs.replace("\\", "\\\\") + "}", base)
 
 
-def go_stage(run, mode, scens, out, par, stores=("memory", "db"), timeout=1500):
+def go_stage(run, mode, scens, out, par, stores=("memory", "db"), timeout=1500, race=True):
     """Runs the driver for both metadata stores (two go test processes in parallel). Returns {store: events}."""
     inp = os.path.join(run.scratch, "in-%s-%d.json" % (mode, run.nrun))
     write_json(inp, {"mode": mode, "out": out, "par": par, "scens": scens})
@@ -118,7 +121,7 @@ def go_stage(run, mode, scens, out, par, stores=("memory", "db"), timeout=1500):
 
     def one(st):
         md, pkg, ov = jobs[st]
-        return run.go_driver(md, pkg, ov, "^TestVerifC15$", env=env, timeout=timeout)
+        return run.go_driver(md, pkg, ov, "^TestVerifC15$", env=env, timeout=timeout, race=race)
     with ThreadPoolExecutor(len(stores)) as ex:
         futs = {st: ex.submit(one, st) for st in stores}
         for st, f in futs.items():
@@ -127,6 +130,7 @@ def go_stage(run, mode, scens, out, par, stores=("memory", "db"), timeout=1500):
                 m = re.search(r"WARNING: DATA RACE\n(?:.*\n){0,40}", o)
                 run.violation("datarace:%s:%s" % (mode, st), "data race reported under the C15 driver", {"log": m.group(0) if m else o[-4000:]})
             res[st] = read_ndjson(out + "." + st)
+            res["free-" + st] = read_ndjson(out + ".free." + st) if os.path.exists(out + ".free." + st) else []
     return res
 
 
@@ -169,6 +173,9 @@ def check(run):
 
     # ---- M (in a thread: runs while the layers are built and measured)
     def model_stage():
+        if os.environ.get("C15_SKIP_M"):          # development aid: binding stages only (the run is then reported inconclusive)
+            run.inconclusive.append("C15_SKIP_M set: exhaustive stage skipped")
+            return
         if thorough:
             run.tlc_mc("PrefetchMC", "Prefetch_mc.cfg", None, workers=8, timeout=3000, name="Prefetch_mc.cfg (2 callers of each kind)")
         else:
@@ -190,7 +197,7 @@ def check(run):
     base = layers(run.seed, thorough)
     lay_out = os.path.join(run.scratch, "layout.ndjson")
     probe = [dict(b, cfg=1000, thr=0, pcs=0, np=1, nw=1, nb=1, tmo=300, cache="dir") for b in base]
-    lays = go_stage(run, "layout", probe, lay_out, 4, stores=("memory",))["memory"]
+    lays = go_stage(run, "layout", probe, lay_out, 4, stores=("memory",), race=False)["memory"]   # measuring only: no race detector
     bad = [e for e in lays if e.get("ev") != "Layout"]
     if bad:
         raise Inconclusive("layout stage: %s" % bad[:2])
@@ -219,22 +226,21 @@ def check(run):
         ed = [e for e in edges if e["from"]["sid"] == sid]
         walks, st = edge_cover(ini, ed, maxlen=22, rng=run.rng, extra_walks=(30 if thorough else 4))
         exhaustive = exhaustive and st["covered"] == st["edges"]
-        cap = int(os.environ.get("C15_MAXWALKS", "0") or "0")     # development aid: replay only the first walks of each scenario
+        cap = int(os.environ.get("C15_MAXWALKS", "0") or "0") or (0 if thorough else 16)   # quick: the first walks of each scenario
         if cap and len(walks) > cap:
-            walks, exhaustive = walks[:cap], False
+            # the first walks cover most new edges each; keep a seeded sample of the rest
+            rest = walks[cap // 2:]
+            run.rng.shuffle(rest)
+            walks, exhaustive = walks[:cap // 2] + rest[:cap - cap // 2], False
         v["walks"] = [[{k: x for k, x in s.items() if k not in ("post", "req")} | {"act": s["act"]} for s in w] for w in walks]
-        nsteps += st["steps"]
+        nsteps += sum(len(w) for w in v["walks"])
         run.cov["stages"].append(dict(stage="edge-cover", graph=sid, **st))
     log("[walks] %d walks, %d steps, every edge covered: %s" % (sum(len(v["walks"]) for v in scens), nsteps, exhaustive))
     payload = [{k: x for k, x in v.items() if k != "_sc"} for v in scens]
-    rep = go_stage(run, "replay", payload, os.path.join(run.scratch, "replay.ndjson"), 10 if thorough else 8)
-    free_sc = []
     for v in payload:
-        f = dict(v, walks=[], free=(12 if thorough else 3), np=2, nw=2, nb=2)
-        if v["id"].endswith((".w", ".exact")):
-            f["cache"] = "memory"
-        free_sc.append(f)
-    free = go_stage(run, "free", free_sc, os.path.join(run.scratch, "free.ndjson"), 6)
+        v["free"] = 10 if thorough else 2
+    rep = go_stage(run, "replay", payload, os.path.join(run.scratch, "replay.ndjson"), 12 if thorough else 8)
+    free = {st: rep["free-" + st] for st in ("memory", "db")}
 
     # the exhaustive runs must be through before verdicts are drawn
     mfut.result()
